@@ -213,6 +213,11 @@ func (env *Env) ident(name string) Val {
 			return intv(sx("+", v.T, "1"))
 		}
 		return intv(v.T)
+	case "\\ltop":
+		if env.li == nil || env.li.pre == nil {
+			cerr("\\ltop outside of a loop clause")
+		}
+		return intv(env.li.pre.top)
 	case "\\top0":
 		if env.top0 != "" {
 			return intv(env.top0)
